@@ -102,6 +102,23 @@ def is_exception_class(prog: Program, cls: str) -> bool:
     return prog.exc_subclass(cls, 'Exception') or (cls.endswith('+') and prog.exc_subclass('Exception', cls))
 
 
+def _encoder_classes(prog: Program) -> Set[str]:
+    """classes the server / common JSON encoders have an isinstance branch for"""
+    out: Set[str] = set()
+    for cq in ('pjrpc.server.dispatcher.JSONEncoder', 'pjrpc.common.common.JSONEncoder'):
+        ci = prog.classes.get(cq)
+        d = ci.methods.get('default') if ci is not None else None
+        if d is None:
+            continue
+        for y in ast.walk(d.node):
+            if isinstance(y, ast.Call) and dotted(y.func) == 'isinstance' and len(y.args) == 2:
+                for t_ in (y.args[1].elts if isinstance(y.args[1], ast.Tuple) else [y.args[1]]):
+                    ent = prog.resolve(d.module, t_, ci)
+                    if isinstance(ent, ClassInfo):
+                        out.add(ent.qualname)
+    return out
+
+
 def error_ctor_arguments(prog: Program):
     """(number of constructions, [(function, line, construct, message)]) over pjrpc.server.* and pjrpc.common.*: a construction of a
     JsonRpcError subclass whose first / second positional argument (or code= / message= keyword) is not an integer / string by
@@ -135,6 +152,28 @@ def error_ctor_arguments(prog: Program):
             for kw in x.keywords:
                 if kw.arg in ('code', 'message'):
                     slots[kw.arg] = kw.value
+            # data: what goes on the wire as error data is produced by the server encoder — an exception object only if the encoder
+            # has a branch for its class (the validation error of a call that does not bind has one)
+            data_a = x.args[2] if len(x.args) > 2 and not any(isinstance(a, ast.Starred) for a in x.args[:3]) else \
+                next((kw.value for kw in x.keywords if kw.arg == 'data'), None)
+            if isinstance(data_a, ast.Name) and data_a.id in handler_vars:
+                hs = [h for h in ast.walk(f.node) if isinstance(h, ast.ExceptHandler) and h.name == data_a.id and
+                      any(y is x for b_ in h.body for y in ast.walk(b_))]
+                if hs:
+                    h = hs[-1]
+                    tps = (h.type.elts if isinstance(h.type, ast.Tuple) else [h.type]) if h.type is not None else []
+                    caught = []
+                    for t_ in tps:
+                        ent = prog.resolve(f.module, t_, f.cls)
+                        caught.append(ent.qualname if isinstance(ent, ClassInfo) else (ent if isinstance(ent, str) else norm(t_)))
+                    enc_ok = _encoder_classes(prog)
+                    not_enc = [c for c in caught if not any(c == e_ or (c in prog.classes and any(getattr(b, 'qualname', None) == e_ for b in prog.mro(prog.classes[c])))
+                                                           for e_ in enc_ok)]
+                    if not_enc or not caught:
+                        bad.append((f, x.lineno, f'error data is the caught exception `{data_a.id}`',
+                                    f'`{norm(x)[:80]}` puts the caught {(not_enc or ["exception"])[0].rsplit(".", 1)[-1]} object itself into the error data: the '
+                                    f'server JSON encoder has no branch for it, so producing the response text raises TypeError and dispatch() '
+                                    f'raises instead of answering (the text of the exception, `str({data_a.id})`, is what is encodable)'))
             for slot, a in slots.items():
                 wrong = None
                 if isinstance(a, ast.Constant) and a.value is not None:
@@ -292,6 +331,12 @@ def run(ck: Check, prog: Program) -> None:
     ck.extra['lemmas'] = interp.lemmas
     if interp.depth_cutoffs:
         raise AnalysisError(f'call depth bound hit at {sorted(interp.depth_cutoffs)}')
+    # the response text is produced with the server encoder: what the dispatcher itself puts into an error (the validation error of
+    # a call that does not bind) must be encodable by it, or json.dumps raises out of dispatch
+    from .totality import encoder_default
+    encoder_default(ck, prog, 'pjrpc.server.dispatcher.JSONEncoder', ['pjrpc.server.validators.base.ValidationError'],
+                    why='InvalidParamsError(data=<ValidationError>) is what a call that does not bind is answered with; the response '
+                        'text cannot be produced and dispatch raises TypeError instead of answering -32602')
 
 
 def _empty_batch(ck: Check, prog: Program, r: DispatcherRoles) -> None:
